@@ -59,6 +59,12 @@ CHECKS = {
     "C14": dict(cat="fault_enumeration", tech="deviation-bounded exhaustive enumeration of environment answers (deadline observations, solver verdicts, clock reads) at every observation point of real executions, incl. points inside forked workers", ref="DESIGN.md 4/C14",
                 text="For every (base, operator, back-end, mode, budget configuration in {0,T}^3, sequential/parallel): the 0-deviation execution, then every single deviation at every observation point (thorough: every pair): Deadline observed as expired (sticky), Optimize.check() -> unknown (no model / feasible non-optimal model / forever), preprocessing clock +T/+2T. Each execution is a 3-query call plus a later call on the same manager; oracle: no exception escapes, every row flagged-with-False or equal to the run without budgets.",
                 note="Expiry is modelled at the granularity of the code's own observations; z3's internal timeout is never armed, real time never fires (T=1000 s)."),
+    "C17": dict(cat="exploration", tech=E_IN, ref="DESIGN.md 4/C17",
+                text="Every strongly consistent base of the two-atom scopes and structure representatives over three atoms: construction, natural impacts, rank = sum of impacts of falsified conditionals, acceptance of the base, Pareto minimality by enumerating every vector below the impact vector, acceptance of every query c-inference (implementation and reference) entails, and the Pareto-front enumeration: terminates (check() calls counted) and equals the minimal c-representations of a box containing all returned vectors.",
+                note="Trusted: brute force over worlds and impact boxes. Keys 1..n only."),
+    "C19": dict(cat="model_checking", tech="bounded-exhaustive input exploration with the oracle evaluated on the returned numbers + stateless exploration of all add/remove sequences on the real incremental model (plus merged BFS on the set of present conditionals)", ref="DESIGN.md 4/C19",
+                text="All priors -> {0..2} over one atom and a third of those over two atoms (thorough: all, plus three atoms) x all lists of 1-2 revision conditionals of a 12-element alphabet x gamma_plus_zero x 5 fixed-value maps x {fast, incremental}: returned parameters are naturals, respect fixed values, revised ranking accepts all; None only without witness in a box; never raises; Pareto minimality by enumerating the box below; three compilations equal the definition. CRevisionModel: every add/remove sequence of depth <=3 (thorough 4) over 4 conditionals keeps to_compilation() equal to a fresh reference compilation.",
+                note="'None' is judged against witnesses in a finite box only (sound, incomplete)."),
 }
 
 NOT_YET = "check under construction in this session (see DESIGN.md section 4 for the planned exploration)"
